@@ -52,6 +52,8 @@ type env struct {
 	sum    Summary
 	nOut   int
 	maxOut int
+	tr     *bufio.Writer // trace events (VERIF_TRACE_OUT)
+	trF    *os.File
 }
 
 func (e *env) mismatch(shape, site, what string, c interface{}) {
@@ -77,7 +79,11 @@ func (e *env) emit(v interface{}) {
 // emitEv writes one trace event with the "ev" key first (the orchestration recognises trace
 // boundaries by the prefix {"ev":"Init")
 func (e *env) emitEv(ev string, fields map[string]interface{}) {
-	e.out.WriteString(`{"ev":"` + ev + `"`)
+	out := e.tr
+	if out == nil {
+		panic("VERIF_TRACE_OUT not set")
+	}
+	out.WriteString(`{"ev":"` + ev + `"`)
 	keys := make([]string, 0, len(fields))
 	for k := range fields {
 		keys = append(keys, k)
@@ -89,12 +95,12 @@ func (e *env) emitEv(ev string, fields map[string]interface{}) {
 			panic(err)
 		}
 		kb, _ := json.Marshal(k)
-		e.out.WriteByte(',')
-		e.out.Write(kb)
-		e.out.WriteByte(':')
-		e.out.Write(b)
+		out.WriteByte(',')
+		out.Write(kb)
+		out.WriteByte(':')
+		out.Write(b)
 	}
-	e.out.WriteString("}\n")
+	out.WriteString("}\n")
 	e.sum.Events++
 }
 
@@ -173,6 +179,15 @@ func Main(mode string, app AppFn) int {
 		e.outF = f
 		e.out = bufio.NewWriterSize(f, 1<<20)
 	}
+	if o := os.Getenv("VERIF_TRACE_OUT"); o != "" {
+		f, err := os.Create(o)
+		if err != nil {
+			fmt.Fprintln(os.Stderr, err)
+			return 3
+		}
+		e.trF = f
+		e.tr = bufio.NewWriterSize(f, 1<<20)
+	}
 	fn, ok := modes[mode]
 	if !ok {
 		fmt.Fprintln(os.Stderr, "unknown VERIF_MODE", mode)
@@ -185,6 +200,10 @@ func Main(mode string, app AppFn) int {
 	if e.out != nil {
 		e.out.Flush()
 		e.outF.Close()
+	}
+	if e.tr != nil {
+		e.tr.Flush()
+		e.trF.Close()
 	}
 	b, _ := json.Marshal(e.sum)
 	fmt.Println(string(b))
